@@ -79,9 +79,23 @@ func OracleC17(w *W2Run) []Violation {
 				continue // the extra request arrived before every instance was held: nothing to judge
 			}
 			w.Out.count("probe/request_arrived_while_all_instances_held", 1)
-			rel := rd.RelSeq
-			if !rd.released {
-				rel = int64(len(w.Run.Events)) + 1
+			// the moment the first held request went on (released by the controller, or by the quiescence
+			// rule when nothing else could move): from then on an instance may legitimately become free
+			rel := int64(len(w.Run.Events)) + 1
+			heldAt := map[int64]int64{}
+			for _, e := range w.Run.Events {
+				if e.Kind == EvHeld {
+					if _, ok := w.controllerRound(rd, int(e.A)); ok {
+						heldAt[e.A] = e.Seq
+					}
+					continue
+				}
+				if h, ok := heldAt[e.A]; ok && e.Seq > h && e.Kind >= EvS && e.Kind <= EvKey {
+					if e.Seq < rel {
+						rel = e.Seq
+					}
+					delete(heldAt, e.A)
+				}
 			}
 			if lo, _, ok := activeInterval(v); ok && lo < rel {
 				add("request-did-not-wait", "ran", fmt.Sprintf("%s started running rules (#%d) while all %d instances were still held (released at #%d)", v.C, lo, w.Max, rel))
@@ -89,6 +103,12 @@ func OracleC17(w *W2Run) []Violation {
 				add("request-did-not-wait", "returned", fmt.Sprintf("%s returned (#%d, flags %d) while all %d instances were still held (released at #%d): it must wait, not fail", v.C, v.CR, v.Flags, w.Max, rel))
 			} else if v.CR >= 0 {
 				w.Out.count("probe/request_waited_for_an_engine", 1)
+			}
+			if rd.Staged && rd.phase == 2 {
+				w.Out.count("probe/one_instance_handed_back_while_others_busy", 1)
+				if rd.Starved {
+					add("waiter-not-served-although-instance-free", fmt.Sprintf("max=%d", w.Max), fmt.Sprintf("%s kept waiting although one of the %d in-flight requests (%s) had finished and handed its instance back; it was only served after the other requests had been released too", v.C, w.Max, w.Views[rd.Calls[rd.First]].C))
+				}
 			}
 		}
 	}
@@ -124,6 +144,15 @@ func OracleC17(w *W2Run) []Violation {
 		}
 	}
 	return out
+}
+
+func (w *W2Run) controllerRound(rd *Round, call int) (int, bool) {
+	for i, c := range rd.Calls {
+		if c == call {
+			return i, true
+		}
+	}
+	return 0, false
 }
 
 // OracleC06: request isolation.
